@@ -172,7 +172,9 @@ impl<'a> Lexer<'a> {
                     }
                     Some('#') => {
                         // comment or import
-                        if !in_import_line && !self.forced_comment.contains(&self.byte) && {
+                        // (a second statement may follow on the same line: nitrogql takes an import statement
+                        // wherever a definition may start, not only at the start of a line)
+                        if !self.forced_comment.contains(&self.byte) && {
                             let save = self.i;
                             self.i += 1;
                             let r = self.import_ahead();
